@@ -255,6 +255,13 @@ def process (line : String) : String :=
       let f := Writer.listToBytes P1014 (b == "1") (pcRecords ls)
       s!"ok {cutsSummary (b == "1") ml f (max st 1)}"
     | _, _, _ => "bad-op"
+  | ["vbs.cutshex", b, maxLen, recs, step] =>
+    let rs := if recs.isEmpty then some [] else (recs.splitOn ",").mapM parseHex
+    match rs, maxLen.toNat?, step.toNat? with
+    | some rs, some ml, some st =>
+      let f := Writer.listToBytes P1014 (b == "1") rs
+      s!"ok {cutsSummary (b == "1") ml f (max st 1)}"
+    | _, _, _ => "bad-op"
   | ["luhn.calc", t] =>
     match parseDotted t with
     | some t => s!"ok {toDotted (Card.calcText t)}"
